@@ -323,10 +323,12 @@ def self_test(ctx, module, cfg, lines, corrupt, expect, stem, delay=0.0):
 
 
 def corrupt_verdict(lines):
-    out, done = [], False
+    out, done, judged = [], False, True
     for l in lines:
         e = json.loads(l)
-        if not done and e["ev"] == "end" and e["verdict"] in ("ok", "error"):
+        if e["ev"] == "init":
+            judged = e.get("want", "") != "any"        # an instance whose validity the spec leaves open has no verdict to flip
+        if not done and judged and e["ev"] == "end" and e["verdict"] in ("ok", "error"):
             e["verdict"] = "error" if e["verdict"] == "ok" else "ok"
             done = True
             l = json.dumps(e, separators=(",", ":"))
@@ -503,9 +505,18 @@ def run_c11(ctx):
 
 
 # ------------------------------------------------------------------ rendering (C15)
+CTL_MARK = re.compile(r"\{U\+([0-9A-F]{4})\}")
+
+
+def real_chars(text):
+    """The spec writes a control character as the mark {U+00hh} (interchange is printable ASCII); the YANG text gets the character."""
+    return CTL_MARK.sub(lambda m: chr(int(m.group(1), 16)), text)
+
+
 def render_c15(vec):
     """PrefixScope instance -> ([{name,file,text}], {stmt index: [(file, line), ...] lines that name it})."""
     maps = vec["maps"]
+    vec = dict(vec, stmts=[dict(s, text=real_chars(s["text"])) for s in vec["stmts"]])
     mods = sorted(maps)
     own = {m: maps[m]["own"] for m in mods}
     imps = {m: [(p, t) for p, t in maps[m]["imports"]] for m in mods}
@@ -633,7 +644,8 @@ def run_c15(ctx):
     if "Invariant NoHazard is violated" not in hz["out"]:
         raise Infra("self test failed: no reachable state has a statement sitting in a module that binds its prefix differently")
     g = ctx.tlc("PrefixScopeGen", "PrefixScopeGen.cfg", workers=12, timeout=1500, heap="10g",
-                consts={"NSample": 40 if quick else 0, "NRand": 120 if quick else 1500, "NStack": 150 if quick else 2500, "NMut": 150 if quick else 1500}, extra=["-seed", str(ctx.seed)])
+                consts={"NSample": 40 if quick else 0, "NRand": 120 if quick else 1500, "NStack": 150 if quick else 2500, "NMut": 150 if quick else 1500,
+                        "NCtl": 2 if quick else 12, "NSp": 0 if quick else 120}, extra=["-seed", str(ctx.seed)])
     vecs = []
     for f in sorted(os.listdir(g["dir"])):
         if re.match(r"pvec_.*\.ndjson$", f):
@@ -653,8 +665,8 @@ def run_c15(ctx):
         raise Infra("cc run returned %d results for %d cases" % (len(res), len(cases)))
     lines, nxp = [], 0
     for v, c, o, lo in zip(vecs, cases, res, lines_of):
-        inst = dict(cfg=v["cfg"], stmts=[{k: s[k] for k in ("kind", "place", "T", "U", "V", "e", "pf", "on", "hp", "mut")} for s in v["stmts"]])
-        lines.append(json.dumps(dict(ev="init", id=c["id"], inst=inst), separators=(",", ":")))
+        inst = dict(cfg=v["cfg"], stmts=[{k: s[k] for k in ("kind", "place", "T", "U", "V", "e", "pf", "on", "hp", "mut", "sp")} for s in v["stmts"]])
+        lines.append(json.dumps(dict(ev="init", id=c["id"], want=v["verdict"], inst=inst), separators=(",", ":")))
         verdicts = set(r["verdict"] for r in o["runs"])
         verdict = "crash" if "crash" in verdicts else "timeout" if "timeout" in verdicts else "nondeterministic" if len(verdicts) > 1 else o["runs"][0]["verdict"]
         named, missing = [], []
@@ -693,8 +705,8 @@ def run_c15(ctx):
     ctx.traces += runs
     for f in fails:
         v, c, o = vecs[f["id"]], cases[f["id"]], res[f["id"]]
-        sig = dict(site="compile", what=f["what"], kind=f["kind"], place=f["place"], detail=f["detail"], written_in=f["unit"])
-        ctx.disagree(sig, f"{f['what']} ({f['detail']}) for a {f['kind']} statement placed {f['place']}",
+        sig = dict(site="compile", what=f["what"], kind=f["kind"], place=f["place"], detail=f["detail"], written_in=f["unit"], form=f.get("form", ""))
+        ctx.disagree(sig, f"{f['what']} ({f['detail']}{', prefix used as ' + f['form'] if f.get('form') else ''}) for a {f['kind']} statement placed {f['place']}",
                      dict(kind="trace", failure=f, modules=c["mods"], spec=dict(verdict=v["verdict"], stmts=v["stmts"], badStmts=v["badStmts"]),
                           observed=dict(runs=[dict(verdict=r["verdict"], err=r["err"][:400]) for r in o["runs"]], xps=o["xps"]),
                           how="save {id,mods} as case.json; <scratch>/bin/cc one case.json (VERIF_KEEP=1 bin/check C15)"))
@@ -710,6 +722,11 @@ def run_c15(ctx):
                     "of PrefixScope.tla (or NSample seeded samples per chunk in the quick tier) plus NRand seeded instances with four statements",
                samples=samples, machines_checked=nxp, trace_events=events, expect_error=sum(1 for v in vecs if v["verdict"] == "error"),
                expect_ok=sum(1 for v in vecs if v["verdict"] == "ok"), name_tests_unjudged=unj, exhaustive=not quick,
+               validity_unjudged_blank_at_prefix_colon=sum(1 for v in vecs if v["verdict"] == "any"),
+               statements_with_control_character=sum(1 for v in vecs for s in v["stmts"] if s["mut"]["op"] in ("ctl", "ctlcut")),
+               control_characters_used=len(set(s["mut"]["ch"] for v in vecs for s in v["stmts"] if s["mut"]["op"] in ("ctl", "ctlcut"))),
+               statements_with_prefixed_wildcard=sum(1 for v in vecs for s in v["stmts"] if any(n["l"] == "*" and n["ns"] != "*" for n in s["names"])),
+               statements_with_blank_at_prefix_colon=sum(1 for v in vecs for s in v["stmts"] if s["sp"]),
                explanation="TLC checked the clone mechanism against the textual-scope meaning on every reachable state, generated every placement with its "
                            "verdict / named statement / namespaces; every instance was compiled by the real compiler (twice, child processes) and the verdict, "
                            "the location named by the error and the (namespace, local) of every Name-Push of every compiled machine were validated by PrefixScopeTrace")
@@ -719,6 +736,10 @@ def run_c15(ctx):
         "the statement named by an error: the location (file:line) of the expression statement, of the statement holding it, or (path) of the leaf / typedef; "
         "not judged for a when inherited from uses / augment",
         "syntactic validity is decided by pools of clearly valid / clearly invalid arguments, not by a grammar (that is C04)",
+        "a C0 control character (other than tab, CR, LF) or DEL outside a literal makes an expression invalid (XPath 1.0 section 3.7: neither a token "
+        "nor ExprWhitespace); inside a literal it is not generated",
+        "blanks around the colon of a prefixed name test: an error with an undeclared prefix; with declared prefixes the verdict is not judged "
+        "(XPath 1.0 makes a QName one token, the lexer under test skips the blanks), the machine of an accepted statement is",
     ])
 
 
